@@ -286,8 +286,9 @@ class BaseBackend(CodeGen):
         self._helper_funcs = []
 
         # definition of extrinsic function _imports
-        # `E` (Euler's number) is a constant of the equation language just like `pi`: sympy prints it as `E`
-        self._imports = ["from numpy import pi, sqrt", "from numpy import e as E"]
+        # `E` (Euler's number) is a constant of the equation language just like `pi`: sympy prints it as `E`.
+        # It has to stay in the FIRST import line, which backends for other languages drop or replace.
+        self._imports = ["from numpy import pi, sqrt, e as E"]
         if imports:
             for imp in imports:
                 self.add_import(imp)
